@@ -29,6 +29,8 @@ pub struct Style {
   pub name_box: u8,
   /// blank cell below the values column in the hit policy row (rules as columns), as in the shipped examples
   pub merged_hit_policy_cell: bool,
+  /// equal input / output entries of consecutive rules are drawn as one cell spanning those rules
+  pub merge_equal_entries: bool,
 }
 
 #[derive(Clone, Debug)]
@@ -309,9 +311,21 @@ pub fn render(t: &SrcTable, style: &Style) -> Result<String, String> {
       lines: vec![(r + 1).to_string()],
     });
     for (k, e) in ins.iter().chain(outs.iter()).chain(anns.iter()).enumerate() {
+      let entry_of = |rule: &(Vec<Vec<String>>, Vec<Vec<String>>, Vec<Vec<String>>)| -> Vec<String> { rule.0.iter().chain(rule.1.iter()).chain(rule.2.iter()).nth(k).cloned().unwrap_or_default() };
+      let mergeable = style.merge_equal_entries && k < ni + no;
+      // a cell already covered by the merged cell that started in an earlier rule
+      if mergeable && r > 0 && entry_of(&t.rules[r - 1]) == *e {
+        continue;
+      }
+      let mut last = r;
+      if mergeable {
+        while last + 1 < nr && entry_of(&t.rules[last + 1]) == *e {
+          last += 1;
+        }
+      }
       cells.push(Cell {
         r0: h + r,
-        r1: h + r + 1,
+        r1: h + last + 1,
         c0: 1 + k,
         c1: 2 + k,
         lines: e.clone(),
